@@ -14,7 +14,8 @@ TECHNIQUE = ("Hypothesis PBT against a linear-programming oracle (scipy HiGHS, i
 LEVEL = ("Generated-input exploration: for every training sample an LP over the other samples decides whether it is a lower-hull vertex "
          "(margin-aware), training distances are compared with the vertical offset y - h(x) from a second LP, selected samples have zero "
          "distance and zero high-dimensional residual, queries inside the footprint are signed correctly, and the selection is invariant "
-         "under added points above the hull and positive affine maps of y. No absence claim: strength = counted distinct non-trivial cases.")
+         "under added points above the hull and positive affine maps of y; every row is scored independently of the batch it is in "
+         "(also for fixed data sets of 2049..6000 samples). No absence claim: strength = counted distinct non-trivial cases.")
 BUDGET = {"quick": 300, "thorough": 3000}
 WATCHDOG = {"quick": 60, "thorough": 240}
 RULE = ("Cases: 1..3 hull dimensions, 0..3 additional high-dimensional columns, any choice and order of low_dim_idx, n in ld+3..20 "
